@@ -28,6 +28,7 @@ type Engine struct {
 	globals map[*ssa.Global]int
 	funcs   map[*ssa.Function]int
 	needPow2 bool
+	bigPtr   types.Type // *math/big.Int when some loaded package imports math/big
 	srcCache map[string][]string
 	repo    string
 	specUses map[*VC]map[string]bool
@@ -70,6 +71,13 @@ func (eng *Engine) load(patterns []string, overlay map[string][]byte) error {
 	prog, spkgs := ssautil.Packages(pkgs, ssa.GlobalDebug|ssa.BareInits)
 	eng.prog = prog
 	eng.spkgs = spkgs
+	for _, pk := range prog.AllPackages() {
+		if pk.Pkg.Path() == "math/big" {
+			if obj := pk.Pkg.Scope().Lookup("Int"); obj != nil {
+				eng.bigPtr = types.NewPointer(obj.Type())
+			}
+		}
+	}
 	for _, sp := range spkgs {
 		if sp != nil {
 			sp.Build()
@@ -484,6 +492,18 @@ func (eng *Engine) verifyFunc(fn *ssa.Function, con *Contract, mode string) *VC 
 		}
 		vc.assert(g)
 	}
+	// lemma instances that mention only parameters are assumed at entry (they are needed at call sites
+	// inside the body); the others at the return points where their names are in scope
+	entryLemma := map[int]bool{}
+	for li, c := range con.Lemmas {
+		lenv := fr.newEnv(&fr.entry)
+		lenv.paramsOnly = true
+		if g, err := lenv.evalBool(c.E); err == nil {
+			vc.assert(g)
+			vc.assumptions["lemma instance (trusted) in "+name+": "+c.Text] = true
+			entryLemma[li] = true
+		}
+	}
 	// axioms that only mention declared spec functions are added lazily at query time
 	vac := &Obl{Name: name + "#vacuity(requires)", Kind: "vacuity", Goal: "true", Reach: "true", LineIdx: len(vc.lines), Cover: true, Func: name, Props: con.Props,
 		Text: "the precondition (with type facts) is satisfiable"}
@@ -508,7 +528,10 @@ func (eng *Engine) verifyFunc(fn *ssa.Function, con *Contract, mode string) *VC 
 		for i := 0; i < fn.Signature.Results().Len(); i++ {
 			env.resNames = append(env.resNames, fn.Signature.Results().At(i).Name())
 		}
-		for _, c := range con.Lemmas {
+		for li, c := range con.Lemmas {
+			if entryLemma[li] {
+				continue
+			}
 			// a lemma instance is an elementary mathematical fact about spec functions stated for this
 			// function's values; it is assumed (and listed) wherever the names it mentions are in scope
 			if g, err := env.evalBool(c.E); err == nil {
@@ -549,7 +572,9 @@ func (eng *Engine) relevantAxioms(vc *VC) []string {
 			ok := false
 			for _, n := range names {
 				if sf, isSpec := eng.cs.lookupSpec(ax.Pkg, n); isSpec && sf.Body == nil {
-					if _, declared := vc.declared[n]; declared {
+					// used by a contract clause of this VC (or by an axiom already included): engine-internal
+					// uses of the same symbol (pow2 from shifts) do not pull the lemma library in
+					if eng.specUses[vc][n] {
 						ok = true
 					}
 				}
